@@ -35,9 +35,10 @@ def main():
     wt = f"/tmp/confirm_{a.id}"
     dst = os.path.join(ROOT, "seeded", a.id)
     os.makedirs(dst, exist_ok=True)
-    for f in os.listdir(a.src):
-        if os.path.isfile(os.path.join(a.src, f)):
-            shutil.copy(os.path.join(a.src, f), os.path.join(dst, f))
+    if os.path.realpath(a.src) != os.path.realpath(dst):
+        for f in os.listdir(a.src):
+            if os.path.isfile(os.path.join(a.src, f)):
+                shutil.copy(os.path.join(a.src, f), os.path.join(dst, f))
     meta = dict(id=a.id, property=a.prop, needs_to_manifest=a.needs, ran=[], confirmed=False)
     subprocess.run(["git", "-C", "/repo", "worktree", "remove", "--force", wt], capture_output=True)
     rc, out = sh(f"git -C /repo worktree add -q {wt} HEAD", "/")
